@@ -98,6 +98,15 @@ func VerifCoalescingTimeline() {
 	vAdd(c, obs)
 	zzverif.WaitQuiescent()
 	zzverif.Assert(obs.signals == 3, "first_add_after_idle_signalled_immediately")
+	// a second burst after the idle period: the back-off starts again from the initial delay, so one more Add is
+	// signalled no later than 2 x initial after it
+	t3 := clk.Now()
+	vAdd(c, obs)
+	zzverif.WaitQuiescent()
+	zzverif.Assert(obs.signals == 3, "burst_inside_window_not_signalled_yet")
+	clk.AdvanceTo(t3.Add(2 * vInitial))
+	zzverif.WaitQuiescent()
+	zzverif.Assert(obs.signals == 4, "backoff_restarts_from_initial_after_idle")
 	zzverif.Assert(obs.signals <= obs.adds, "signals_never_exceed_adds")
 	c.Close()
 	<-runDone
@@ -115,12 +124,21 @@ func VerifCoalescingCap() {
 	vAdd(c, obs)
 	zzverif.WaitQuiescent()
 	zzverif.Assert(obs.signals == 1, "first_add_after_idle_signalled_immediately")
-	vAdd(c, obs)
-	zzverif.WaitQuiescent()
-	vAdd(c, obs)
-	zzverif.WaitQuiescent()
-	// two pending: the cap is reached when the second token is handled
-	zzverif.Assert(obs.signals == 2, "signal_as_soon_as_pending_cap_reached")
+	if zzverif.Bool("fast_burst") {
+		// three Adds back to back: the run loop may see the counter already past the cap
+		vAdd(c, obs)
+		vAdd(c, obs)
+		vAdd(c, obs)
+		zzverif.WaitQuiescent()
+		zzverif.Assert(obs.signals >= 2, "signal_as_soon_as_pending_cap_reached")
+	} else {
+		vAdd(c, obs)
+		zzverif.WaitQuiescent()
+		vAdd(c, obs)
+		zzverif.WaitQuiescent()
+		// two pending: the cap is reached when the second token is handled
+		zzverif.Assert(obs.signals == 2, "signal_as_soon_as_pending_cap_reached")
+	}
 	zzverif.Assert(obs.lastSigAt > obs.lastAddAt, "every_add_followed_by_signal")
 	zzverif.Assert(obs.signals <= obs.adds, "signals_never_exceed_adds")
 	clk.Advance(2 * vMax)
